@@ -155,10 +155,8 @@ Fixpoint lower (r : re) : cre :=
       let c := lower x in
       CCat (crep (Z.to_nat mn) c)
            (if mx <? 0 then CStar c else copt (Z.to_nat (mx - mn)) c)
-  | RConcat l => (fix go (l : list re) : cre :=
-                    match l with [] => CEps | x :: t => CCat (lower x) (go t) end) l
-  | RAlt l => (fix go (l : list re) : cre :=
-                 match l with [] => CNone | x :: t => CAlt (lower x) (go t) end) l
+  | RConcat l => ccat_list (map lower l)
+  | RAlt l => calt_list (map lower l)
   end.
 
 (* the fully anchored match ^(?s:r)$ *)
